@@ -562,6 +562,9 @@ func main() {
 	// The parent only shuttles lines over pipes; a small scheduler keeps it cheap
 	// on a loaded machine.
 	runtime.GOMAXPROCS(2)
+	// Scheduling priority (inherited by the children) makes the pipe ping-pong
+	// cheaper on a loaded host; failure (not root) is harmless.
+	syscall.Setpriority(syscall.PRIO_PROCESS, 0, -10)
 	var err error
 	if self, err = os.Executable(); err != nil {
 		panic(err)
